@@ -13,12 +13,13 @@ SRC = _REPO + '/src/bloch/compiler/parser/parser.cpp'
 NAMESPACE = 'bloch::compiler'
 FUNCS = ['peek', 'previous', 'isAtEnd', 'advance', 'check', 'checkNext', 'checkFunctionAnnotation', 'match', 'reportError', 'expect',
          'parseVariableAnnotation', 'parseFunctionAnnotation', 'parseAnnotations', 'isTypeAhead']
-AST_FILTER = ['Parser::' + f for f in FUNCS] + ['TokenType']
+AST_FILTER = ['Parser::' + f for f in FUNCS] + ['Parser::parseType', 'TokenType']
 SHIM = 'pann.h'
-THROWING = {'reportError', 'expect', 'parseVariableAnnotation', 'parseFunctionAnnotation', 'parseAnnotations'}
+THROWING = {'reportError', 'expect', 'parseVariableAnnotation', 'parseFunctionAnnotation', 'parseAnnotations', 'parseType_array_size'}
 DROPS = ['diagnostic message strings: a std::string that only flows into reportError is not built (category, line, column are kept)',
          'token texts are interned identities; an AnnotationNode is a value {name, value, isVariableAnnotation, isFunctionAnnotation}; the returned vector of nodes is an array of at most ANN_MAX nodes',
-         'const Token& results are returned by value (they are only read)']
+         'const Token& results are returned by value (they are only read)',
+         'region parseType_array_size: in Parser::parseType, the then-branch of `if (check(TokenType::IntegerLiteral))` inside the `while (match(TokenType::LBracket))` loop (conversion of a literal array size); the local arrSize becomes a file-level variable; std::stoi is a model: value and overflow are uninterpreted functions of the (interned) literal text, and - the token being an IntegerLiteral, i.e. digits only - the only exception it can raise is std::out_of_range']
 ASSUMPTIONS = ['the token vector is what the lexer delivers: non-empty, ending in exactly one Eof token (proved for the lexer in unit LEX: tokenize.ends_with_eof)',
                'TMAXP = 8 tokens (object-size bound); the annotation loop is proved by a loop contract for any number of annotations up to ANN_MAX']
 
@@ -180,6 +181,9 @@ class Profile(Lower):
         return super().member(n)
 
     def call_named(self, n, name, args):
+        if name == 'stoi' and args and self.ct(args[0]) == 'bl_txt' and all(a.get('kind') == 'CXXDefaultArgExpr' for a in args[1:]):
+            self.needs_prop = True
+            return 'pann_stoi(%s)' % self.expr(args[0])
         if name == 'make_unique' and 'AnnotationNode' in qt(n):
             return 'bl_ann_default()'
         if name == 'move':
@@ -241,6 +245,33 @@ def lower(docs, prof):
         protos.append(head + ';')
         if lines is not None:
             bodies.append([head] + lines)
+    # region parseType_array_size: conversion of the literal size in `T[123]`
+    head = 'void Parser_parseType_array_size(struct Parser *self)'
+    try:
+        ds = cxx2c.find_functions(docs, 'parseType')
+        if len(ds) != 1:
+            raise Unsupported('parseType: %d definitions' % len(ds))
+        ifs = []
+        walk(ds[0], lambda z: ifs.append(z) if z.get('kind') == 'IfStmt' else None)
+        tgt = None
+        for st in ifs:
+            cond = strip_parens(strip(kids(st)[0]))
+            names = []
+            walk(cond, lambda z: names.append(z['referencedDecl'].get('name')) if z.get('kind') == 'DeclRefExpr' else None)
+            tries = []
+            walk(kids(st)[1], lambda z: tries.append(z) if z.get('kind') == 'CXXTryStmt' else None)
+            if cond.get('kind') == 'CXXMemberCallExpr' and strip(kids(cond)[0]).get('name') == 'check' and 'IntegerLiteral' in names and tries:
+                tgt = st
+                break
+        if tgt is None:
+            raise Unsupported('parseType: `if (check(TokenType::IntegerLiteral)) { ... try ... }` not found')
+        d = dict(kind='FunctionDecl', name='parseType_array_size', type=dict(qualType='void ()'), inner=[kids(tgt)[1]])
+        h2, lines = prof.func(d, cname='parseType_array_size', is_method=True)
+        protos.append(head + ';')
+        bodies.append([head] + lines)
+    except Unsupported as e:
+        unlowered['parseType_array_size'] = 'EXTRACTION BREAK (PANN::parseType_array_size): %s' % e
+        protos.append(head + ';')
     prof.fn_unlowered = unlowered
     return dict(protos=protos, bodies=bodies, profile=prof, unlowered=unlowered)
 
@@ -258,6 +289,14 @@ int bl_exc, bl_exc_line, bl_exc_col;
 #define TXT(k) (TK.data[(k) < TMAXP ? (k) : 0].value.id)
 #define AT_TOKEN(k) (bl_exc == EXC_PARSE && bl_exc_line == TK.data[(k) < TMAXP ? (k) : 0].line && bl_exc_col == TK.data[(k) < TMAXP ? (k) : 0].column)
 size_t g_c0;                      /* ghost: cursor on entry */
+/* region parseType_array_size: std::stoi on the text of an IntegerLiteral token (digits only: std::invalid_argument is impossible) */
+int bl_exc_kind; int arrSize;
+#ifndef NATIVE
+int __CPROVER_uninterpreted_stoi_val(int); _Bool __CPROVER_uninterpreted_stoi_oor(int);
+#define STOI_VAL(id) __CPROVER_uninterpreted_stoi_val(id)
+#define STOI_OOR(id) __CPROVER_uninterpreted_stoi_oor(id)
+static inline int pann_stoi(bl_txt t) { if (STOI_OOR(t.id)) { bl_exc = BL_EXC_STD; bl_exc_kind = BL_STD_OUT_OF_RANGE; bl_exc_line = 0; bl_exc_col = 0; return 0; } return STOI_VAL(t.id); }
+#endif
 """
 RET = '__CPROVER_return_value'
 
@@ -315,6 +354,15 @@ CONTRACTS = {
                       'decreases': 'TK.size - CUR'}},
     },
 }
+CONTRACTS['parseType_array_size'] = {
+    'contract': [
+        R(FRESH + ' && TY(CUR) == BL_IntegerLiteral'), A('CUR, bl_exc, bl_exc_line, bl_exc_col, bl_exc_kind, arrSize'),
+        # C13: a size literal too large for an int is a Parse diagnostic, never the raw std::out_of_range of std::stoi
+        E('parseType.array_size.only_parse_errors', 'bl_exc == 0 || bl_exc == EXC_PARSE', ['C13']),
+        E('parseType.array_size.too_large_a_literal_is_reported', 'STOI_OOR(TXT(%s)) ==> bl_exc == EXC_PARSE' % C0, ['C13']),
+        E('parseType.array_size.value_is_the_literals', '!STOI_OOR(TXT(%s)) ==> (bl_exc == 0 && arrSize == STOI_VAL(TXT(%s)) && CUR == %s + 1)' % (C0, C0, C0), ['C13', 'C14']),
+    ],
+}
 PRIM_TYPES = ['Void', 'Int', 'Float', 'Long', 'Char', 'String', 'Bit', 'Qubit', 'Boolean']
 IS_PRIM_TOK = '(' + ' || '.join('TY(CUR) == BL_%s' % t for t in PRIM_TYPES) + ')'
 CONTRACTS['isTypeAhead_skipTypeArgs'] = {
@@ -348,6 +396,8 @@ HARNESSES = [
          cbmc_args=['--sat-solver', 'cadical'], bounded_cbmc_args=['--sat-solver', 'cadical'], second_solver=False),
     dict(name='isTypeAhead', fn='isTypeAhead', replace=['isTypeAhead_skipTypeArgs'], flags=[], props=['C13', 'C14', 'C12'], timeout=300, unwind=10,
          canaries=[('1', 'return')]),
+    dict(name='parseType_array_size', fn='parseType_array_size', replace=[], flags=[], props=['C13', 'C14', 'C12'], timeout=300,
+         canaries=[('bl_exc == 0', 'converted'), ('bl_exc != 0', 'reported')]),
     dict(name='advance', fn='advance', replace=[], flags=[], props=['C13', 'C12'], timeout=120, canaries=[('1', 'return')]),
     dict(name='expect', fn='expect', replace=[], flags=[], props=['C13', 'C14', 'C12'], timeout=120, canaries=[('bl_exc == 0', 'consumed'), ('bl_exc != 0', 'reported')]),
     dict(name='parseVariableAnnotation', fn='parseVariableAnnotation', replace=[], flags=[], props=['C14', 'C13', 'C12'], timeout=300, canaries=[('bl_exc == 0', 'accepted'), ('bl_exc != 0', 'rejected')]),
